@@ -209,8 +209,10 @@ Section Requests.
   Context {P C : Type}.
   Variable M : machine P C.
   Variable spec : bytes -> list (nres P).
+  Variable G : bytes -> Prop.
   Variable R : C -> bytes -> nat -> Prop.
-  Hypothesis OK : consumer_ok M spec R.
+  Variable D : C -> bytes -> Prop.
+  Hypothesis OK : consumer_ok_rel M spec G R D.
 
   Definition nact_ev (a : @nact P) : option (nres P) :=
     match a with
@@ -223,11 +225,11 @@ Section Requests.
   Definition rq_post (d : bytes) (k : nat) (o : speer) (c' : C) (o' : speer) (a : @nact P) : Prop :=
     exists x,
       match a with
-      | NStop => x = sstream_of o /\ R c' (d ++ x) k /\ k = length (spec (d ++ x))
+      | NStop => x = sstream_of o /\ D c' (d ++ x) /\ k = length (spec (d ++ x))
       | _ => x ++ sstream_of o' = sstream_of o /\
              match nact_ev a with
              | Some e => nth_error (spec (d ++ x)) k = Some e /\ R c' (d ++ x) (S k)
-             | None => a <> NThrow XHandler /\ R c' (d ++ x) k /\ k = length (spec (d ++ x))
+             | None => a <> NThrow XHandler /\ D c' (d ++ x) /\ k = length (spec (d ++ x))
              end
       end.
 
@@ -250,11 +252,11 @@ Section Requests.
   Proof. destruct r; intros H; try congruence; split; try reflexivity; discriminate. Qed.
 
   Lemma rq_loop_inv : forall fuel dl c o now d k c' o' now' a,
-      speer_size o < fuel -> R c d k -> k = length (spec d) ->
+      speer_size o < fuel -> D c d -> k = length (spec d) -> G (d ++ sstream_of o) ->
       rq_loop M fuel dl c o now = (c', o', now', a) ->
       rq_post d k o c' o' a.
   Proof.
-    induction fuel; intros dl c o now d k c' o' now' a Hf HR Hk H; [lia|].
+    induction fuel; intros dl c o now d k c' o' now' a Hf HR Hk HG H; [lia|].
     cbn [rq_loop] in H. destruct o as [|it o1].
     - inversion H; subst. exists []. rewrite app_nil_r. auto.
     - destruct (match dl with Some d0 => Nat.ltb now (sitem_at it) && Nat.leb d0 (sitem_at it) | None => false end).
@@ -262,8 +264,10 @@ Section Requests.
       destruct it as [ch at_|at_|kk at_].
       + destruct ch as [|b ch].
         { inversion H; subst. exists []. rewrite app_nil_r. auto. }
-        destruct (ok_take _ _ _ OK c d k (b :: ch) HR Hk ltac:(discriminate)) as (c1 & r1 & n & room & Et & Hn & Hpost).
-        rewrite Et in H. cbn [sitem_at] in H.
+        assert (HG1 : G (d ++ b :: ch)).
+        { apply (okr_prefix _ _ _ _ _ OK _ (sstream_of o1)). rewrite <- app_assoc. exact HG. }
+        destruct (okr_take _ _ _ _ _ OK c d (b :: ch) HR ltac:(discriminate) HG1) as (c1 & r1 & n & room & Et & Hn & Hpost).
+        rewrite <- Hk in Hpost. rewrite Et in H. cbn [sitem_at] in H.
         pose proof (stake_rest (b :: ch) n at_ o1 Hn) as [Hs Hsz]. cbv zeta in Hs, Hsz.
         set (o2 := if Nat.ltb n (length (b :: ch)) then SData (skipn n (b :: ch)) at_ :: o1 else o1) in *.
         assert (Hf2 : speer_size o2 < fuel) by (simpl in Hf; simpl in Hsz; lia).
@@ -276,7 +280,9 @@ Section Requests.
         * destruct Hpost. eapply (Hev (RPkt p)); eauto; [discriminate|inversion H; reflexivity].
         * destruct Hpost. eapply (Hev (RErr e)); eauto; [discriminate|inversion H; reflexivity].
         * destruct Hpost as [Hl HR1].
-          pose proof (IHfuel _ _ _ _ _ _ _ _ _ _ Hf2 HR1 (eq_sym Hl) H) as (x & Hx).
+          assert (HG2 : G ((d ++ firstn n (b :: ch)) ++ sstream_of o2)).
+          { rewrite <- app_assoc, Hs. exact HG. }
+          pose proof (IHfuel _ _ _ _ _ _ _ _ _ _ Hf2 HR1 (eq_sym Hl) HG2 H) as (x & Hx).
           exists (firstn n (b :: ch) ++ x). rewrite app_assoc.
           destruct a; try (destruct Hx as [Hx1 Hx2]; split; [|exact Hx2]).
           -- rewrite <- app_assoc, Hx1. exact Hs.
@@ -289,11 +295,12 @@ Section Requests.
   Qed.
 
   Lemma rq_next_inv : forall t c o now d k c' o' now' a,
+      G (d ++ sstream_of o) ->
       R c d k -> rq_next M t c o now = (c', o', now', a) -> rq_post d k o c' o' a.
   Proof.
-    unfold rq_next. intros t c o now d k c' o' now' a HR H.
+    unfold rq_next. intros t c o now d k c' o' now' a HG HR H.
     destruct (mdrain M c) as [c1 r1] eqn:Ed.
-    pose proof (ok_drain _ _ _ OK _ _ _ _ _ HR Ed) as Hdr.
+    pose proof (okr_drain _ _ _ _ _ OK _ _ _ _ _ (okr_prefix _ _ _ _ _ OK _ _ HG) HR Ed) as Hdr.
     assert (Hev : forall r, r <> RStop -> (c', o', a) = (c1, o, nact_of r) ->
                   nth_error (spec d) k = Some r -> R c1 d (S k) -> rq_post d k o c' o' a).
     { intros r Hne E Hnth HR1. inversion E; subst. destruct (nact_of_event r Hne) as [Ne Ns].
@@ -356,7 +363,7 @@ Section Requests.
 
   Lemma spec_firstn_prefix : forall d x k, k <= length (spec d) -> firstn k (spec (d ++ x)) = firstn k (spec d).
   Proof.
-    intros d x k H. destruct (ok_mono _ _ _ OK d x) as [tl E]. rewrite E, firstn_app.
+    intros d x k H. destruct (okr_mono _ _ _ _ _ OK d x) as [tl E]. rewrite E, firstn_app.
     replace (k - length (spec d)) with 0 by lia. rewrite firstn_O, app_nil_r. reflexivity.
   Qed.
 
@@ -370,16 +377,17 @@ Section Requests.
     (exists n, got (f_user f) = firstn n (spec s)) /\ (f_eof f = true -> got (f_user f) = spec s).
 
   Lemma client_loop_req : forall fuel ph t c o now (u : @ustate P) d k,
+      G (d ++ sstream_of o) ->
       R c d k -> k <= length (spec d) -> got u = firstn k (spec d) ->
       req_post (d ++ sstream_of o) (client_loop M fuel ph t c o now u).
   Proof.
-    induction fuel; intros ph t c o now u d k HR Hk Hg.
+    induction fuel; intros ph t c o now u d k HG HR Hk Hg.
     - split; [|discriminate]. exists k. cbn. rewrite Hg. symmetry. apply spec_firstn_prefix. exact Hk.
     - cbn [client_loop]. destruct (closed u).
       { split; [|discriminate]. exists k. cbn [finish finish_ f_user]. rewrite hclose_got, Hg.
         symmetry. apply spec_firstn_prefix. exact Hk. }
       destruct (rq_next M t c o now) as [[[c' o'] now'] a] eqn:En.
-      pose proof (rq_next_inv _ _ _ _ _ _ _ _ _ _ HR En) as (x & Hpost).
+      pose proof (rq_next_inv _ _ _ _ _ _ _ _ _ _ HG HR En) as (x & Hpost).
       assert (Hres : forall ev, got_ev ev = match nact_ev a with Some e => [e] | None => [] end ->
                 a <> NStop ->
                 req_post (d ++ sstream_of o)
@@ -392,7 +400,7 @@ Section Requests.
         assert (Hx : x ++ sstream_of o' = sstream_of o /\
                      match nact_ev a with
                      | Some e => nth_error (spec (d ++ x)) k = Some e /\ R c' (d ++ x) (S k)
-                     | None => a <> NThrow XHandler /\ R c' (d ++ x) k /\ k = length (spec (d ++ x))
+                     | None => a <> NThrow XHandler /\ D c' (d ++ x) /\ k = length (spec (d ++ x))
                      end) by (destruct a; try congruence; exact Hpost).
         destruct Hx as [Hx1 Hx2].
         assert (Hk' : exists k', R c' (d ++ x) k' /\ k' <= length (spec (d ++ x)) /\
@@ -401,13 +409,13 @@ Section Requests.
           - destruct Hx2 as [Hn HR2]. exists (S k). split; [exact HR2|]. split.
             + apply nth_error_Some. congruence.
             + rewrite (firstn_S_nth _ _ _ Hn), Hg, spec_firstn_prefix by exact Hk. reflexivity.
-          - destruct Hx2 as (_ & HR2 & Hk2). exists k. split; [exact HR2|]. split; [lia|].
+          - destruct Hx2 as (_ & HR2 & Hk2). exists k. split; [rewrite Hk2; apply (okr_D_R _ _ _ _ _ OK); exact HR2|]. split; [lia|].
             rewrite app_nil_r, Hg, spec_firstn_prefix by exact Hk. reflexivity. }
         destruct Hk' as (k' & HR' & Hk'' & Hg').
         destruct (hresume ph ev now' u) as [u1 res] eqn:Eh. apply hresume_got in Eh. rewrite <- Eh in Hg'.
         rewrite <- Hx1, app_assoc.
         destruct res.
-        - apply (IHfuel _ _ _ _ _ _ _ _ HR' Hk'' Hg').
+        - apply (IHfuel _ _ _ _ _ _ _ k'); [|exact HR'|exact Hk''|exact Hg']. rewrite <- app_assoc, Hx1. exact HG.
         - split; [|discriminate]. exists k'. cbn. rewrite Hg'. symmetry. apply spec_firstn_prefix. exact Hk''.
         - split; [|discriminate]. exists k'. cbn. rewrite Hg'. symmetry. apply spec_firstn_prefix. exact Hk''. }
       destruct a as [p|xk|].
@@ -419,13 +427,14 @@ Section Requests.
         split; [|intros _; exact E]. exists (length (spec (d ++ sstream_of o))). cbn [finish_ f_user]. rewrite E. symmetry. apply firstn_all.
   Qed.
 
-  Lemma client_coroutine_req : forall c0, R c0 [] 0 -> forall oc acts0 o,
+  Lemma client_coroutine_req_rel : forall c0, R c0 [] 0 -> forall oc acts0 o,
+      G (sstream_of o) ->
       req_post (sstream_of o) (client_coroutine M oc acts0 c0 o).
   Proof.
-    intros c0 R0 oc acts0 o. unfold client_coroutine.
+    intros c0 R0 oc acts0 o HG. unfold client_coroutine.
     destruct (hstart oc _) as [u1 res] eqn:E. apply hstart_got in E. cbn in E.
     destruct res.
-    - apply (client_loop_req _ _ _ _ _ _ _ [] 0 R0 (Nat.le_0_l _) E).
+    - apply (client_loop_req _ _ _ _ _ _ _ [] 0 HG R0 (Nat.le_0_l _) E).
     - split; [|discriminate]. exists 0. cbn. exact E.
     - split; [|discriminate]. exists 0. cbn. exact E.
   Qed.
@@ -436,23 +445,25 @@ Section Timeouts.
   Context {P C : Type}.
   Variable M : machine P C.
   Variable spec : bytes -> list (nres P).
+  Variable G : bytes -> Prop.
   Variable R : C -> bytes -> nat -> Prop.
-  Hypothesis OK : consumer_ok M spec R.
+  Variable D : C -> bytes -> Prop.
+  Hypothesis OK : consumer_ok_rel M spec G R D.
 
   Definition tmo_post (dd : nat) (d : bytes) (k : nat) (o : speer) (c' : C) (o' : speer) (now' : nat) : Prop :=
-    exists x, now' = dd /\ x ++ sstream_of o' = sstream_of o /\ R c' (d ++ x) k /\ k = length (spec (d ++ x)) /\
+    exists x, now' = dd /\ x ++ sstream_of o' = sstream_of o /\ D c' (d ++ x) /\ k = length (spec (d ++ x)) /\
               match o' with it :: _ => dd <= sitem_at it | [] => False end.
 
   Lemma nact_of_not_timeout : forall r : nres P, nact_of r <> NThrow XTimeout.
   Proof. destruct r; discriminate. Qed.
 
   Lemma rq_loop_timeout : forall fuel dl c o now d k c' o' now',
-      speer_size o < fuel -> R c d k -> k = length (spec d) ->
+      speer_size o < fuel -> D c d -> k = length (spec d) -> G (d ++ sstream_of o) ->
       (match dl with Some dd => now <= dd | None => True end) ->
       rq_loop M fuel dl c o now = (c', o', now', NThrow XTimeout) ->
       exists dd, dl = Some dd /\ tmo_post dd d k o c' o' now'.
   Proof.
-    induction fuel; intros dl c o now d k c' o' now' Hf HR Hk Hdl H; [lia|].
+    induction fuel; intros dl c o now d k c' o' now' Hf HR Hk HG Hdl H; [lia|].
     cbn [rq_loop] in H. destruct o as [|it o1]; [inversion H|].
     destruct dl as [dd|].
     - destruct (Nat.ltb now (sitem_at it)) eqn:E1; destruct (Nat.leb dd (sitem_at it)) eqn:E2; cbn [andb] in H.
@@ -462,28 +473,71 @@ Section Timeouts.
         by (try apply Nat.ltb_ge in E1; try apply Nat.leb_gt in E2; try apply Nat.ltb_lt in E1; lia).
       all: destruct it as [ch at_|at_|kk at_]; [|inversion H|destruct kk; inversion H].
       all: destruct ch as [|b ch]; [inversion H|].
-      all: destruct (ok_take _ _ _ OK c d k (b :: ch) HR Hk ltac:(discriminate)) as (c1 & r1 & n & room & Et & Hn & Hpost).
-      all: rewrite Et in H; cbn [sitem_at] in H, Hnow.
+      all: assert (HG1 : G (d ++ b :: ch))
+        by (apply (okr_prefix _ _ _ _ _ OK _ (sstream_of o1)); rewrite <- app_assoc; exact HG).
+      all: destruct (okr_take _ _ _ _ _ OK c d (b :: ch) HR ltac:(discriminate) HG1) as (c1 & r1 & n & room & Et & Hn & Hpost).
+      all: rewrite <- Hk in Hpost; rewrite Et in H; cbn [sitem_at] in H, Hnow.
       all: pose proof (stake_rest (b :: ch) n at_ o1 Hn) as [Hs Hsz]; cbv zeta in Hs, Hsz.
       all: set (o2 := if Nat.ltb n (length (b :: ch)) then SData (skipn n (b :: ch)) at_ :: o1 else o1) in *.
       all: assert (Hf2 : speer_size o2 < fuel) by (simpl in Hf; simpl in Hsz; lia).
       all: destruct r1 as [p|e| |]; try (inversion H; fail).
       all: destruct Hpost as [Hl HR1].
-      all: destruct (IHfuel (Some dd) _ _ _ _ _ _ _ _ Hf2 HR1 (eq_sym Hl) Hnow H) as (dd' & Edd & x & Hx1 & Hx2 & Hx3 & Hx4 & Hx5).
+      all: assert (HG2 : G ((d ++ firstn n (b :: ch)) ++ sstream_of o2)) by (rewrite <- app_assoc, Hs; exact HG).
+      all: destruct (IHfuel (Some dd) _ _ _ _ _ _ _ _ Hf2 HR1 (eq_sym Hl) HG2 Hnow H) as (dd' & Edd & x & Hx1 & Hx2 & Hx3 & Hx4 & Hx5).
       all: injection Edd as Edd'; rewrite <- Edd' in *; clear Edd'; exists dd; split; [reflexivity|].
       all: exists (firstn n (b :: ch) ++ x); rewrite app_assoc; repeat split; auto.
       all: rewrite <- app_assoc, Hx2; exact Hs.
     - cbn in H.
       destruct it as [ch at_|at_|kk at_]; [|inversion H|destruct kk; inversion H].
       destruct ch as [|b ch]; [inversion H|].
-      destruct (ok_take _ _ _ OK c d k (b :: ch) HR Hk ltac:(discriminate)) as (c1 & r1 & n & room & Et & Hn & Hpost).
-      rewrite Et in H. cbn [sitem_at] in H.
+      assert (HG1 : G (d ++ b :: ch))
+        by (apply (okr_prefix _ _ _ _ _ OK _ (sstream_of o1)); rewrite <- app_assoc; exact HG).
+      destruct (okr_take _ _ _ _ _ OK c d (b :: ch) HR ltac:(discriminate) HG1) as (c1 & r1 & n & room & Et & Hn & Hpost).
+      rewrite <- Hk in Hpost. rewrite Et in H. cbn [sitem_at] in H.
       pose proof (stake_rest (b :: ch) n at_ o1 Hn) as [Hs Hsz]. cbv zeta in Hs, Hsz.
       set (o2 := if Nat.ltb n (length (b :: ch)) then SData (skipn n (b :: ch)) at_ :: o1 else o1) in *.
       assert (Hf2 : speer_size o2 < fuel) by (simpl in Hf; simpl in Hsz; lia).
       destruct r1 as [p|e| |]; try (inversion H; fail).
       destruct Hpost as [Hl HR1].
-      destruct (IHfuel None _ _ _ _ _ _ _ _ Hf2 HR1 (eq_sym Hl) I H) as (dd' & Edd & _). discriminate.
+      assert (HG2 : G ((d ++ firstn n (b :: ch)) ++ sstream_of o2)) by (rewrite <- app_assoc, Hs; exact HG).
+      destruct (IHfuel None _ _ _ _ _ _ _ _ Hf2 HR1 (eq_sym Hl) HG2 I H) as (dd' & Edd & _). discriminate.
+  Qed.
+
+  Lemma rq_next_timeout_rel : forall t c o now d k c' o' now',
+      G (d ++ sstream_of o) ->
+      R c d k -> rq_next M t c o now = (c', o', now', NThrow XTimeout) ->
+      exists tm x, t = Some tm /\ now' = now + tm /\ x ++ sstream_of o' = sstream_of o /\
+                   D c' (d ++ x) /\ k = length (spec (d ++ x)) /\
+                   match o' with it :: _ => now + tm <= sitem_at it | [] => False end.
+  Proof.
+    unfold rq_next. intros t c o now d k c' o' now' HG HR H.
+    destruct (mdrain M c) as [c1 r1] eqn:Ed.
+    pose proof (okr_drain _ _ _ _ _ OK _ _ _ _ _ (okr_prefix _ _ _ _ _ OK _ _ HG) HR Ed) as Hdr.
+    destruct r1 as [p|e| |]; try (inversion H; fail).
+    destruct Hdr as [Hk HR1].
+    destruct t as [tm|].
+    - destruct (rq_loop_timeout _ (Some (now + tm)) _ _ _ _ _ _ _ _ (Nat.lt_succ_diag_r _) HR1 Hk HG (Nat.le_add_r now tm) H)
+        as (dd & Edd & x & Hx1 & Hx2 & Hx3 & Hx4 & Hx5).
+      cbn in Edd. injection Edd as Edd'. rewrite <- Edd' in *. exists tm, x. repeat split; auto.
+    - destruct (rq_loop_timeout _ None _ _ _ _ _ _ _ _ (Nat.lt_succ_diag_r _) HR1 Hk HG I H) as (dd & Edd & _). discriminate.
+  Qed.
+End Timeouts.
+
+From EN Require Import Proofs.C03_proofs.
+
+(* the unrelativised statements (interface consumer_ok) as instances *)
+Section Unrelativised.
+  Context {P C : Type}.
+  Variable M : machine P C.
+  Variable spec : bytes -> list (nres P).
+  Variable R : C -> bytes -> nat -> Prop.
+  Hypothesis OK : consumer_ok M spec R.
+
+  Lemma client_coroutine_req : forall c0, R c0 [] 0 -> forall oc acts0 o,
+      req_post spec (sstream_of o) (client_coroutine M oc acts0 c0 o).
+  Proof.
+    intros c0 R0 oc acts0 o.
+    apply (client_coroutine_req_rel M spec _ R _ (consumer_ok_is_rel M spec R OK) c0 R0 oc acts0 o I).
   Qed.
 
   Lemma rq_next_timeout : forall t c o now d k c' o' now',
@@ -492,18 +546,12 @@ Section Timeouts.
                    R c' (d ++ x) k /\ k = length (spec (d ++ x)) /\
                    match o' with it :: _ => now + tm <= sitem_at it | [] => False end.
   Proof.
-    unfold rq_next. intros t c o now d k c' o' now' HR H.
-    destruct (mdrain M c) as [c1 r1] eqn:Ed.
-    pose proof (ok_drain _ _ _ OK _ _ _ _ _ HR Ed) as Hdr.
-    destruct r1 as [p|e| |]; try (inversion H; fail).
-    destruct Hdr as [Hk HR1].
-    destruct t as [tm|].
-    - destruct (rq_loop_timeout _ (Some (now + tm)) _ _ _ _ _ _ _ _ (Nat.lt_succ_diag_r _) HR1 Hk (Nat.le_add_r now tm) H)
-        as (dd & Edd & x & Hx1 & Hx2 & Hx3 & Hx4 & Hx5).
-      cbn in Edd. injection Edd as Edd'. rewrite <- Edd' in *. exists tm, x. repeat split; auto.
-    - destruct (rq_loop_timeout _ None _ _ _ _ _ _ _ _ (Nat.lt_succ_diag_r _) HR1 Hk I H) as (dd & Edd & _). discriminate.
+    intros t c o now d k c' o' now' HR H.
+    destruct (rq_next_timeout_rel M spec _ R _ (consumer_ok_is_rel M spec R OK) t c o now d k c' o' now' I HR H)
+      as (tm & x & H1 & H2 & H3 & H4 & H5 & H6).
+    exists tm, x. repeat split; auto. rewrite H5. exact H4.
   Qed.
-End Timeouts.
+End Unrelativised.
 
 From EN Require Import Frame.ReadUntil Proofs.C03_fixed.
 
